@@ -59,7 +59,7 @@ SCHED = {
     "C15": dict(kinds=["overwrite"], classes=["nullvalue", "linearizability", "status", "held"]),
 }
 
-LEAF_TIE = False     # switched on once `yakmodel leaf` is in place
+LEAF_TIE = True
 
 ASSUME_SCHED = [
     "sequentially consistent interleavings only (one thread runs between two announced accesses); weak-memory reorderings are not explored",
